@@ -1386,6 +1386,38 @@ func (x *c12) wireLists() {
 				}
 			}
 			if !in {
+				// guard-clause form: _, ok := ext.(*OwnerExt); if !ok { continue }
+				okVars := map[types.Object]bool{}
+				ast.Inspect(f.fn.Body, func(y ast.Node) bool {
+					as, isAs := y.(*ast.AssignStmt)
+					if !isAs || len(as.Lhs) != 2 || len(as.Rhs) != 1 {
+						return true
+					}
+					ta, isTA := an.Unparen(as.Rhs[0]).(*ast.TypeAssertExpr)
+					if !isTA || ta.Type == nil {
+						return true
+					}
+					if !an.MentionsField(info, ta.X, "UConn", "Extensions") && !rangesOver(info, f.fn, ta.X, "UConn", "Extensions") {
+						return true
+					}
+					for _, e := range own {
+						if an.TypeName(info.TypeOf(ta.Type)) == e.ext {
+							if id, isID := as.Lhs[1].(*ast.Ident); isID {
+								okVars[objOf(info, id)] = true
+							}
+						}
+					}
+					return true
+				})
+				pass, _, _ := condEdges(f.fn, func(cond ast.Expr) (bool, bool) {
+					id, isID := an.Unparen(cond).(*ast.Ident)
+					return isID && okVars[objOf(info, id)], true
+				})
+				if pt, has := f.fn.PointOf(call); has && len(pass) > 0 && f.fn.MustPass(pt, nil, pass) {
+					in = true
+				}
+			}
+			if !in {
 				okAll = false
 			}
 			return true
